@@ -716,6 +716,55 @@ fn race_delete_second_command(s: &mut Session) {
     s.final_phase = false;
 }
 
+/// two people rename to the SAME free name at once: the stub parks the first command of A's request that mentions A's old name
+/// (after the "is the new name free" lookup), B's whole rename goes through, then A continues.  Account names are unique, so A
+/// must be turned away - and must not have touched anything on the way.
+fn race_rename_same_target(s: &mut Session) {
+    s.jars = vec![None; 3];
+    s.me = vec!["-".to_string(); 3];
+    s.ctrl.cmd(json!({"cmd": "reset"}));
+    s.scen = "race-rename2".into();
+    s.seq = 0;
+    s.expected_updates = 0;
+    s.out.push(json!({"kind": "reset", "id": s.scen, "principals": 2, "race": "rename-same-target"}));
+    for (p, n, pw) in [(0usize, "r2alice", "pw-A-1"), (1usize, "r2bob", "pw-B-2")] {
+        s.req(Some(p), "register", json!({"username": n, "password": pw}));
+        s.req(Some(p), "login", json!({"username": n, "password": pw}));
+        s.req(Some(p), "add", json!({"name": format!("OWN{}", p + 1), "parsing": "Naive", "class": "good", "code": format!("s(p{}k1s0).ac(p{}k1s0,c(v)).", p + 1, p + 1)}));
+        s.settle(true);
+    }
+    let h = s.ctrl.cmd(json!({"cmd": "hold", "match": {"cmd": "*", "contains": "r2alice"}}));
+    let hid = h["hold"].as_u64().unwrap_or(0);
+    let jar_a = s.jars[0].clone();
+    s.out.push(json!({"kind": "http_start", "id": format!("{}#launch", s.scen), "p": 1, "dev": 1, "op": "update", "args": {"username": "r2zed", "password": "pw-A-1"}}));
+    let t = std::thread::spawn(move || {
+        http("PUT", "/users/update", jar_a.as_deref(), Some("application/json"), json!({"username": "r2zed", "password": "pw-A-1"}).to_string().as_bytes())
+    });
+    let held = s.ctrl.cmd(json!({"cmd": "held", "hold": hid, "wait_ms": 15000}));
+    let parked = held["held"].as_array().map(|a| !a.is_empty()).unwrap_or(false);
+    s.out.push(json!({"kind": "note", "id": format!("{}#hold", s.scen), "parked": parked}));
+    s.req(Some(1), "update", json!({"username": "r2zed", "password": "pw-B-2"}));
+    s.settle(true);
+    s.ctrl.cmd(json!({"cmd": "release", "id": hid}));
+    let ra = t.join().unwrap();
+    if ra.status == 200 {
+        if let Some(c) = &ra.set_cookie { s.jars[0] = Some(c.clone()); }
+        s.me[0] = "r2zed".to_string();
+    }
+    s.seq += 1;
+    s.out.push(json!({"kind": "http", "id": format!("{}#{}", s.scen, s.seq), "p": 1, "dev": 1, "op": "update", "args": {"username": "r2zed", "password": "pw-A-1"}, "had_cookie": true,
+                      "status": ra.status, "body": {"text": ""}, "cookie_after": true, "concurrent": true, "me": "r2alice", "db": []}));
+    s.settle(true);
+    s.final_phase = true;
+    for p in 0..2usize {
+        s.req(Some(p), "list", json!({}));
+        s.req(Some(p), "get", json!({"name": "OWN1"}));
+        s.req(Some(p), "get", json!({"name": "OWN2"}));
+    }
+    s.settle(true);
+    s.final_phase = false;
+}
+
 /// a rename takes ALL of the account's problems along (and their results), and leaves nothing behind under the old name
 fn rename_keeps_problems(s: &mut Session) {
     s.jars = vec![None; 3];
@@ -775,6 +824,8 @@ fn slow_task_scenario(s: &mut Session) {
     s.req(Some(1), "add", json!({"name": "SAME", "parsing": "Naive", "class": "good", "code": "s(p2k1s0).ac(p2k1s0,c(v))."}));
     s.settle(true);
     s.req(Some(0), "solve", json!({"name": "SAME", "strategy": "Stable"}));
+    // a quick solve of the same problem while the slow one is still running: both answers must be there in the end
+    s.req(Some(0), "solve", json!({"name": "SAME", "strategy": "Ground"}));
     for _ in 0..3 {
         s.req(Some(1), "get", json!({"name": "SAME"}));
         s.req(Some(1), "list", json!({}));
@@ -784,6 +835,7 @@ fn slow_task_scenario(s: &mut Session) {
     s.settle(true);
     s.final_phase = true;
     s.req(Some(1), "get", json!({"name": "SAME"}));
+    s.req(Some(0), "get", json!({"name": "SAME"}));
     s.settle(true);
     s.final_phase = false;
 }
@@ -827,13 +879,14 @@ pub fn main(args: &[String]) {
     stale_session(&mut s, true);
     race_delete_window(&mut s);
     race_delete_second_command(&mut s);
+    race_rename_same_target(&mut s);
     rename_keeps_problems(&mut s);
     let mut f = std::io::BufWriter::new(std::fs::File::create(&out).expect("cannot create out file"));
     for r in &s.out {
         writeln!(f, "{}", r).unwrap();
     }
     f.flush().unwrap();
-    eprintln!("server: {} scenarios, {} records", n + 9, s.out.len());
+    eprintln!("server: {} scenarios, {} records", n + 10, s.out.len());
     drop(procs);
     std::process::exit(0);
 }
